@@ -131,11 +131,15 @@ impl ShardClientInterface for Faulty {}
 impl Client for Faulty {}
 
 fn config(base: &std::path::Path, salt: u8) -> Arc<TranslatorConfig> {
+    config_with(base, salt, false)
+}
+
+fn config_with(base: &std::path::Path, salt: u8, dry_remote: bool) -> Arc<TranslatorConfig> {
     let path = base.join("xet");
     std::fs::create_dir_all(&path).unwrap();
     Arc::new(TranslatorConfig {
         data_config: DataConfig {
-            endpoint: Endpoint::FileSystem(path.join("xorbs")),
+            endpoint: if dry_remote { Endpoint::Server("http://127.0.0.1:9".into()) } else { Endpoint::FileSystem(path.join("xorbs")) },
             compression: Default::default(),
             auth: None,
             prefix: "default".into(),
@@ -146,7 +150,7 @@ fn config(base: &std::path::Path, salt: u8) -> Arc<TranslatorConfig> {
             prefix: "default".into(),
             cache_directory: path.join("shard-cache"),
             session_directory: path.join("shard-session"),
-            global_dedup_policy: Default::default(),
+            global_dedup_policy: if dry_remote { data::configurations::GlobalDedupPolicy::Never } else { Default::default() },
             repo_salt: [salt; 32],
         },
         repo_info: Some(RepoInfo { repo_paths: vec!["".into()] }),
@@ -175,6 +179,16 @@ async fn run_async(ops: Vec<Vec<String>>, base: PathBuf, tp: Arc<ThreadPool>) ->
     for op in &ops {
         match op[0].as_str() {
             "S" => {
+                if op.get(1).map(|x| x.as_str()) == Some("dry") {
+                    // a dry-run session (as the migration tool runs them) against a remote endpoint that is never contacted: it must
+                    // leave nothing behind that a later session could deduplicate against
+                    let c = config_with(&base, 0, true);
+                    client = None;
+                    errors.clear();
+                    files.clear();
+                    session = FileUploadSession::dry_run(c, tp.clone(), None).await.ok();
+                    continue;
+                }
                 let mut plan = Plan::default();
                 for t in &op[1..] {
                     let (k, v) = t.split_once('=').unwrap();
@@ -226,7 +240,13 @@ async fn run_async(ops: Vec<Vec<String>>, base: PathBuf, tp: Arc<ThreadPool>) ->
             },
             "E" => {
                 let Some(s) = session.take() else { continue };
-                let c = client.take().unwrap();
+                let Some(c) = client.take() else {
+                    // the dry run: finalized, judged by what the sessions after it do
+                    let _ = s.finalize().await;
+                    files.clear();
+                    errors.clear();
+                    continue;
+                };
                 let fin = s.finalize().await;
                 if let Err(e) = &fin {
                     errors.push(format!("finalize: {:?}", e));
